@@ -241,3 +241,141 @@ def protected_main_fields():
         bad = [x for x in sites if x[1] != "PyMarkdownLint.__init__"]
         out.append({"name": f"structural::C18::protected[PyMarkdownLint.{fld}]", "ok": not bad and bool(sites), "info": protected_main_fields.__doc__, "detail": f"sites {sites} unexpected {bad}"})
     return out
+
+
+# ------------------------------------------------------------------------------------------------ C13 / C20: parser statics
+def _top_level_calls(stmts):
+    """(index, call node) of expression-statement calls at the top level of a statement list"""
+    out = []
+    for i, s_ in enumerate(stmts):
+        if isinstance(s_, ast.Expr) and isinstance(s_.value, ast.Call):
+            out.append((i, s_.value))
+        elif isinstance(s_, ast.Assign) and isinstance(s_.value, ast.Call):
+            out.append((i, s_.value))
+    return out
+
+
+def _method(rel, cls, name):
+    mi = front.load_module(rel)
+    return mi.classes[cls].methods.get(front.mangle(name, cls))
+
+
+@check("C13", "C20")
+def transform_initialises_statics():
+    """TokenizedMarkdown.__transform calls InlineProcessor.initialize(extension manager) and LinkParseHelper.initialize()
+    on every call, before the block pass: nothing learned from one document (link definitions, handler tables) reaches the next"""
+    fi = _method("pymarkdown/general/tokenized_markdown.py", "TokenizedMarkdown", "__transform")
+    out = []
+    body = []
+    if fi is not None:
+        tries = [n for n in fi.node.body if isinstance(n, ast.Try)]
+        body = tries[0].body if tries else fi.node.body
+    calls = [(i, ast.unparse(c.func)) for i, c in _top_level_calls(body)]
+    idx = {name: i for i, name in calls}
+    pass_i = next((i for i, name in calls if name.endswith("__parse_blocks_pass")), None)
+    for need in ("InlineProcessor.initialize", "LinkParseHelper.initialize"):
+        ok = need in idx and pass_i is not None and idx[need] < pass_i
+        out.append({"name": f"structural::C13::transform_order[{need}]", "ok": ok, "info": transform_initialises_statics.__doc__,
+                    "detail": f"top-level calls of __transform in order: {calls}"})
+    return out
+
+
+@check("C13", "C20", "C11")
+def block_pass_resets():
+    """TokenizedMarkdown.__parse_blocks_pass starts by re-creating the token stack, the document and the pragma-line map,
+    before anything that can raise: a failed parse cannot leak them into the next document"""
+    fi = _method("pymarkdown/general/tokenized_markdown.py", "TokenizedMarkdown", "__parse_blocks_pass")
+    out = []
+    prefix = []
+    if fi is not None:
+        for s_ in fi.node.body:
+            if isinstance(s_, ast.Try):
+                break
+            prefix.append(s_)
+    assigns = {}
+    for i, s_ in enumerate(prefix):
+        if isinstance(s_, ast.Assign) and len(s_.targets) == 1:
+            assigns[ast.unparse(s_.targets[0])] = ast.unparse(s_.value)
+        elif isinstance(s_, (ast.Assert,)) or (isinstance(s_, ast.Expr) and (isinstance(s_.value, ast.Constant) or front.is_logging_call(s_.value))):
+            continue
+        elif not isinstance(s_, ast.Assign):
+            assigns[f"<other statement {type(s_).__name__}@{s_.lineno}>"] = ""
+    want = {"self._TokenizedMarkdown__parse_properties.pragma_lines": "{}", "self._TokenizedMarkdown__tokenized_document": "[]",
+            "self._TokenizedMarkdown__token_stack": "[DocumentStackToken()]"}
+    for k, v in want.items():
+        out.append({"name": f"structural::C13::block_pass_reset[{k.split('.')[-1]}]", "ok": assigns.get(k) == v,
+                    "info": block_pass_resets.__doc__, "detail": f"assignments before the try block: {assigns}"})
+    return out
+
+
+def static_stores():
+    """every store to / mutation of a class-level attribute in pymarkdown/ (outside plugins/): (class, attr) -> [(rel, function, line, kind)]"""
+    from .rule_analysis import MUTATORS
+
+    out = {}
+    for rel, full in py_files():
+        if "/plugins/" in rel:
+            continue
+        tree = parse(full)
+        classes = {n.name for n in tree.body if isinstance(n, ast.ClassDef)}
+        for q, fn in enclosing_functions(tree):
+            cls = q.split(".")[0] if "." in q else None
+            for n in ast.walk(fn):
+                tgt = None
+                kind = None
+                if isinstance(n, ast.Attribute) and isinstance(n.ctx, (ast.Store, ast.Del)):
+                    tgt, kind = n, "assign"
+                elif isinstance(n, ast.Subscript) and isinstance(n.ctx, (ast.Store, ast.Del)) and isinstance(n.value, ast.Attribute):
+                    tgt, kind = n.value, "item"
+                elif isinstance(n, ast.Call) and isinstance(n.func, ast.Attribute) and n.func.attr in MUTATORS and isinstance(n.func.value, ast.Attribute):
+                    tgt, kind = n.func.value, "mutate"
+                if tgt is None or not isinstance(tgt.value, ast.Name):
+                    continue
+                root = tgt.value.id
+                if root == "cls" and cls:
+                    root = cls
+                if root[:1].isupper() and root != "self":
+                    attr = front.mangle(tgt.attr, cls) if root == cls else tgt.attr
+                    out.setdefault((root, attr), []).append((rel, q, n.lineno, kind))
+    return out
+
+
+@check("C13")
+def parser_statics_reset():
+    """every class-level variable of the application that is written after import is either re-initialised, to a value that
+    depends only on the extension flags, by an initialiser that __transform runs for every document, or is exempt for a stated
+    reason (specs/static_exemptions.json: configuration-only, diagnostics-only, per-invocation)"""
+    import json as _json
+
+    exempt = _json.load(open(os.path.join(os.path.dirname(os.path.abspath(__file__)), "..", "specs", "static_exemptions.json")))
+    init_chain = {("pymarkdown/inline/inline_processor.py", "InlineProcessor.initialize"),
+                  ("pymarkdown/inline/inline_handler_helper.py", "InlineHandlerHelper.initialize"),
+                  ("pymarkdown/inline/emphasis_helper.py", "EmphasisHelper.initialize"),
+                  ("pymarkdown/links/link_parse_helper.py", "LinkParseHelper.initialize")}
+    out = []
+    # the chain itself: each initialiser calls the next one at its top level
+    for (rel, q), callee in ((("pymarkdown/inline/inline_processor.py", "InlineProcessor.initialize"), "InlineHandlerHelper.initialize"),
+                             (("pymarkdown/inline/inline_handler_helper.py", "InlineHandlerHelper.initialize"), "EmphasisHelper.initialize")):
+        fn = dict(enclosing_functions(parse(os.path.join(front.REPO_ROOT, rel)))).get(q)
+        names = [ast.unparse(c.func) for _, c in _top_level_calls(fn.body)] if fn is not None else []
+        out.append({"name": f"structural::C13::init_chain[{q}->{callee}]", "ok": callee in names, "info": parser_statics_reset.__doc__,
+                    "detail": f"top-level calls: {names}"})
+    for (cls, attr), sites in sorted(static_stores().items()):
+        key = f"{cls}.{attr}"
+        name = f"structural::C13::static[{key}]"
+        if key in exempt:
+            out.append({"name": name, "ok": True, "info": f"class-level state {key}: exempt", "detail": exempt[key]})
+            continue
+        # a top-level plain assignment `Cls.attr = <expr>` inside a function of the init chain
+        ok = False
+        where = ""
+        for rel, q, line, kind in sites:
+            if (rel, q) in init_chain and kind == "assign":
+                fn = dict(enclosing_functions(parse(os.path.join(front.REPO_ROOT, rel))))[q]
+                for s_ in fn.body:
+                    if isinstance(s_, ast.Assign) and s_.lineno == line:
+                        ok = True
+                        where = f"{q}@{line}"
+        out.append({"name": name, "ok": ok, "info": f"class-level state {key} is re-initialised for every document",
+                    "detail": where or f"write sites {sites}; none is a top-level assignment in {sorted(q for _, q in init_chain)}"})
+    return out
